@@ -56,8 +56,9 @@ pub fn val() -> String {
 }
 
 /// element orders over the universe {a, b, c, d}
-pub const ORDERS: [&[&str]; 10] = [
-    &[], &["a"], &["a", "b"], &["b", "a"], &["a", "b", "c"], &["c", "a", "b"], &["a", "c"], &["b"], &["d", "a", "b"], &["a", "d", "b", "c"],
+pub const ORDERS: [&[&str]; 12] = [
+    &[], &["a"], &["a", "b"], &["b", "a"], &["a", "b", "c"], &["b", "c"], &["c"], &["c", "a", "b"], &["a", "c"], &["b"], &["d", "a", "b"],
+    &["a", "d", "b", "c"],
 ];
 
 /// document with one flattened array `items♭` holding the given elements (each with value `vals[i]`) and a title
@@ -140,4 +141,15 @@ pub fn smoke() {
     let r2 = a.reopen();
     assert!(state(&r2) == s1, "reopened replica shows a different state");
     sym::reach(1);
+}
+
+/// compares the observable state of two replicas (prints both on the native side when they differ)
+pub fn same_state(a: &Melda, b: &Melda) -> bool {
+    let (sa, sb) = (state(a), state(b));
+    if sa != sb {
+        sym::debug_str("left ", &sa);
+        sym::debug_str("right", &sb);
+        return false;
+    }
+    true
 }
